@@ -24,7 +24,7 @@ from harness.wire import RecordingWriter
 
 PROP = "C14"
 LEVEL = "exploration"
-TECHNIQUE = 'conservation / exactly-once checker over per-writer byte streams (files read back from disk) against a reference recording writer'
+TECHNIQUE = 'conservation / exactly-once checker over per-writer byte streams (files read back from disk) against a reference recording writer + independent byte expectation (statement + line ending in force) for statements written as text'
 LEVEL_TEXT = 'Held on random add/remove/write/flush/teardown histories over thirteen writer kinds.'
 RULE = ("histories (25-45 events) of add_writer (incl. duplicates and re-adds) / remove_writer / emitting "
         "calls (moves, comments with non-ASCII text, tool and mode commands) / flush / teardown over mixes "
